@@ -534,7 +534,8 @@ package saml
 //@ requires[cfg] a: req.Assertion != nil && req.SPSSODescriptor != nil && req.ACSEndpoint != nil && req.ServiceProviderMetadata != nil
 //@ requires[cfg] chain: forall(0, len(req.IDP.Intermediates), func(k int) bool { return req.IDP.Intermediates[k] != nil })
 //@ -- the form posts to the selected registered endpoint, only if that endpoint uses the POST binding, with the relay state unchanged
-//@ ensures[C06] form: err == nil ==> result.URL == req.ACSEndpoint.Location && req.ACSEndpoint.Binding == HTTPPostBinding && result.RelayState == req.RelayState
+//@ -- (C05: the response goes to the endpoint Validate selected, never to a location that appears only in the request)
+//@ ensures[C05,C06] form: err == nil ==> result.URL == req.ACSEndpoint.Location && req.ACSEndpoint.Binding == HTTPPostBinding && result.RelayState == req.RelayState
 
 //@ contract (*IdpAuthnRequest).WriteResponse
 //@ requires[cfg] idp: req.IDP != nil && req.IDP.Certificate != nil
